@@ -15,6 +15,9 @@
  * record their arguments and return an arbitrary, per-node fixed result. */
 #include "_unit.h"
 #define TB_N 5
+#ifndef TB_NEED_MAX
+#define TB_NEED_MAX 512
+#endif
 static const char *const tb_name[TB_N] = { "a", "b.c", "b.d", "l[0]", "l[1]" };
 static char tb_ctx[TB_N];
 static struct xcm_socket *tb_sock;
@@ -80,7 +83,7 @@ static struct attr_tree *tb_build(void)
     for (i = 0; i < TB_N; i++) {    /* loop tb_build.0 */
         tb_type[i] = nondet_int(); __CPROVER_assume(tb_type[i] >= 1 && tb_type[i] <= 5);
         tb_has_set[i] = nondet_bool(); tb_has_get[i] = nondet_bool();
-        tb_need[i] = nondet_size_t(); __CPROVER_assume(tb_need[i] <= 512);
+        tb_need[i] = nondet_size_t(); __CPROVER_assume(tb_need[i] <= TB_NEED_MAX);
         tb_get_rv[i] = nondet_int(); __CPROVER_assume(tb_get_rv[i] >= -1 && (tb_get_rv[i] < 0 || (size_t)tb_get_rv[i] == tb_need[i]));
         /* a successful getter returns the size of the value; bool/int64/double values have their fixed size */
         __CPROVER_assume(tb_type[i] == xcm_attr_type_bool ? tb_need[i] == sizeof(bool) : (tb_type[i] == xcm_attr_type_int64 || tb_type[i] == xcm_attr_type_double) ? tb_need[i] == 8 : 1);
